@@ -235,6 +235,8 @@ def _ctx():
         ),
     )
     add("mapvalues_ev", ANY, I, lambda h, i: ("mapvalues", h, [("A", ("val", [1, 3]))]))
+    # an iterable with repeated (and ==-equal) elements: one pair per element of the product, not per distinct value
+    add("map_dup_ev", ANY, I, lambda h, i: ("map", h, [(_q(i, "m"), ("val", [2, 2, 1, True]))]))
     add(
         "map_iter",
         ("l", "i"),
